@@ -152,6 +152,9 @@ func cmdVerify(args []string) {
 		}
 	}
 	if bad > 0 {
+		if !*keep && *work == "" {
+			os.RemoveAll(dir)
+		}
 		os.Exit(1)
 	}
 }
